@@ -343,7 +343,19 @@ fn edge_i64() -> impl Strategy<Value = i64> {
         v.push(i64::MIN);
         v
     };
-    prop_oneof![3 => proptest::sample::select(edges), 1 => any::<i8>().prop_map(|x| x as i64), 1 => any::<i32>().prop_map(|x| x as i64), 2 => any::<i64>()]
+    prop_oneof![3 => proptest::sample::select(edges), 1 => any::<i8>().prop_map(|x| x as i64), 1 => any::<i32>().prop_map(|x| x as i64), 2 => any::<i64>(), 2 => (near_float_midpoint(), any::<bool>()).prop_map(|(v, neg)| if neg { (v as i64).wrapping_neg() } else { v as i64 })]
+}
+
+/// integers next to a midpoint between two adjacent f32 (24-bit mantissa) or f64 (53-bit mantissa) values: where a conversion
+/// that rounds twice, or truncates, picks the wrong neighbour
+fn near_float_midpoint() -> impl Strategy<Value = u64> {
+    (any::<u64>(), any::<bool>(), 1u32..41, -2i64..3).prop_map(|(m, single, shift, d)| {
+        let bits = if single { 24 } else { 53 };
+        let shift = shift.min(64 - bits);
+        let mant = (m & ((1u64 << bits) - 1)) | (1u64 << (bits - 1));
+        let mid = (mant << shift).wrapping_add(1u64 << (shift - 1));
+        mid.wrapping_add(d as u64)
+    })
 }
 fn edge_u64() -> impl Strategy<Value = u64> {
     let edges: Vec<u64> = {
@@ -357,7 +369,7 @@ fn edge_u64() -> impl Strategy<Value = u64> {
         }
         v
     };
-    prop_oneof![3 => proptest::sample::select(edges), 1 => any::<u8>().prop_map(|x| x as u64), 1 => any::<u32>().prop_map(|x| x as u64), 2 => any::<u64>()]
+    prop_oneof![3 => proptest::sample::select(edges), 1 => any::<u8>().prop_map(|x| x as u64), 1 => any::<u32>().prop_map(|x| x as u64), 2 => any::<u64>(), 2 => near_float_midpoint()]
 }
 fn edge_f64bits() -> impl Strategy<Value = u64> {
     let mut e: Vec<f64> = vec![0.0, -0.0, 0.5, -0.5, 1.5, -1.5, 2.5, -2.5, 12.5, -1.6, -1.4, 1.4, 1.6, 0.49999999999999994, -0.49999999999999994,
@@ -416,7 +428,7 @@ fn small_exhaustive(tier: Tier) -> Box<dyn Iterator<Item = Case>> {
 pub fn def() -> PropDef {
     PropDef {
         id: "C06",
-        rule: "source kind x target kind over the 11 numeric kinds (pairs enumerated), boundary-biased source values, both convert and cast, against exact i128 / IEEE-bit arithmetic; non-trivial = source value within 1 of a target bound, outside it, non-integral or non-finite; distinct = distinct (pair, value, convert|cast)",
+        rule: "source kind x target kind over the 11 numeric kinds (pairs enumerated), boundary-biased source values (type bounds +-2, and 64-bit integers within 2 of a midpoint between adjacent Float / Double values), both convert and cast, against exact i128 / IEEE-bit arithmetic; non-trivial = source value within 1 of a target bound, outside it, non-integral or non-finite; distinct = distinct (pair, value, convert|cast)",
         assumptions: &[
             "a pair the implementation does not support (cast of 1 yields Empty) is not required to be supported",
             "exact .5 ties may round to either neighbour",
